@@ -97,6 +97,14 @@ pub fn scenarios(tier: Tier) -> Vec<Scenario> {
         sc.max_readers = 2;
         out.push(sc);
     }
+    // the two small scenarios first: the quick tier's wall budget, when it is hit on a busy machine,
+    // then cuts the deepest level of the large ones instead of skipping these
+    out.rotate_right(2);
+    // (and the readers-inside scenario before the three large ones)
+    if let Some(pos) = out.iter().position(|s| s.name.contains("readers-inside")) {
+        let sc = out.remove(pos);
+        out.insert(2, sc);
+    }
     out
 }
 
